@@ -233,11 +233,20 @@ section
 variable {S M : Type} [DecidableEq M] (G : Game S M) (hash : S → UInt64) (threats : S → Bool × Bool)
   (scale : UInt32 → UInt32)
 
-/-- `NewDFPN(cfg).Prove(g)` on a fresh solver with `entries` table slots; `att = Color.none` means
-"the side to move" -/
-def prove (fuel : Nat) (att : Color) (entries : Nat) (g : S) : Except Err (Result M × Stats) :=
-  let attacker := if att == .none then G.toMove g else att
-  let st : St M := { table := {}, tableLen := entries, stats := {}, killers := #[] }
+/-- a `DFPNSolver` between two calls of `Prove`: the configured attacker (`Color.none` until the first
+call fixes it to that root's side to move) and what the solver keeps: table and killer moves -/
+structure Solver (M : Type) where
+  attacker : Color
+  st : St M
+
+/-- `NewDFPN(&DFPNConfig{Attacker: att, TableMem: entries·sizeof(entry)})` -/
+def newSolver (att : Color) (entries : Nat) : Solver M :=
+  { attacker := att, st := { table := {}, tableLen := entries, stats := {}, killers := #[] } }
+
+/-- `d.Prove(g)`: also returns the solver as the call leaves it -/
+def proveWith (fuel : Nat) (d : Solver M) (g : S) : Except Err (Result M × Stats × Solver M) :=
+  let attacker := if d.attacker == .none then G.toMove g else d.attacker
+  let st : St M := { d.st with stats := {} }
   let root : Entry M := { hash := hash g, work := 0, bounds := { phi := 1, delta := 1 }, pv := none }
   -- (fix) `mid` never looks at the end of the game for the position it is called on
   let r : Except Err (St M × Entry M × UInt64) :=
@@ -252,7 +261,14 @@ def prove (fuel : Nat) (att : Color) (entries : Nat) (g : S) : Except Err (Resul
       if attacker != G.toMove g then (entry.bounds.delta, entry.bounds.phi) else (entry.bounds.phi, entry.bounds.delta)
     let result : Eval := if proof == 0 then .proven else if disproof == 0 then .disproven else .unknown
     .ok ({ result := result, move := entry.pv, proof := proof, disproof := disproof },
-         { st.stats with work := work })
+         { st.stats with work := work }, { attacker := attacker, st := st })
+
+/-- `NewDFPN(cfg).Prove(g)` on a fresh solver with `entries` table slots; `att = Color.none` means
+"the side to move" -/
+def prove (fuel : Nat) (att : Color) (entries : Nat) (g : S) : Except Err (Result M × Stats) :=
+  match proveWith G hash threats scale fuel (newSolver att entries) g with
+  | .error e => .error e
+  | .ok (r, s, _) => .ok (r, s)
 end
 
 /-- what `solve` reads: white has a threat, black has a threat -/
@@ -267,5 +283,10 @@ def takHash (p : Pos) : UInt64 := UInt64.ofNat p.hashOf.toNat
 def takProve (basis : Array W) (scale : UInt32 → UInt32) (fuel : Nat) (att : Color) (entries : Nat) (pos : Pos) :
     Except Err (Result Move × Stats) :=
   prove (Tak.PN.takGame basis) takHash takThreats scale fuel att entries pos
+
+/-- `d.Prove(pos)` on a solver that may have been used before (table, killers and attacker are kept) -/
+def takProveWith (basis : Array W) (scale : UInt32 → UInt32) (fuel : Nat) (d : Solver Move) (pos : Pos) :
+    Except Err (Result Move × Stats × Solver Move) :=
+  proveWith (Tak.PN.takGame basis) takHash takThreats scale fuel d pos
 
 end Tak.DFPN
